@@ -735,3 +735,84 @@ register("C16", gen=gen_snapshots, oracles=[oracle.c16], nontrivial=has_snapshot
 _lvl("C16", "proof",
      "Theorems about the update function the model executes, for operator lists of any length: snapshot_eq_prefix (after pre ++ [snapshot nm] ++ post the snapshot holds exactly the _save copy of the graph a run of only pre ends with, plus mask/base levels in force; later operators do not leak), snapCopy_single/multi (with the member list regenerated from flow_snapshot.hpp the copy loses nothing: decide over the generated list + one-receiver-per-node for single direction), snapshot_transparent, snapshot_mutators_refused (guards regenerated). Accumulate/basins on a snapshot are the same model functions applied to that state.",
      "Lean 4 fold lemmas over the operator list + decide over the translator-regenerated copied-member list + correspondence + prefix-graph oracle")
+
+
+# ----------------------------------------------------------------------------- C15
+
+def channel_grid(rng):
+    """a channel basin bordered by many single-node pit basins: basins of degree > 16 (Boruvka's
+    large-degree path) and heavy ties"""
+    cols = rng.randint(12, 22)
+    conn = rng.choice(["queen", "queen", "rook"])
+    g = gen.Grid("raster", rows=7, cols=cols, dy=1.0, dx=1.0, conn=conn,
+                 borders=[rng.choice("vc"), rng.choice("cv"), "c", "c"], cache=rng.random() < 0.7, ov=[])
+    z = []
+    for r in range(7):
+        for c in range(cols):
+            if r == 3:
+                z.append(10.0 + 0.25 * c if rng.random() < 0.8 else 10.0)
+            elif r in (1, 5):
+                z.append(float(rng.choice([0, 0, 0, 1])))
+            elif r in (2, 4):
+                z.append(float(rng.choice([20, 20, 21])))
+            else:
+                z.append(float(rng.choice([3, 4])))
+    return g, z
+
+
+def gen_bgraph(rng, tier):
+    out = []
+    for k in range(counts(tier, 260, 2500)):
+        if k % 8 == 0:
+            g, z0 = channel_grid(rng)
+        else:
+            g = gen.any_grid(rng, small=(tier == "quick"))
+            z0 = None
+        lines = [g.line(), "graph single"]
+        for u in range(rng.randint(1, 2)):
+            if rng.random() < 0.35:
+                lines.append("set_mask " + " ".join(map(str, gen.mask_bits(rng, g))))
+            if rng.random() < 0.35:
+                lines.append("set_base " + " ".join(map(str, rng.sample(range(g.n), rng.randint(1, min(4, g.n))))))
+            z = z0 if (z0 is not None and u == 0) else gen.elevation(rng, g, rng.choice(["ints", "ints", "ints2", "steps", "random", "zero", None]))
+            lines.append("update " + gen.hexes(z))
+            reps = rng.choice([1, 1, 2, 3])
+            first = rng.choice("kb")
+            lines.append("bgraph %s %s %d" % (first, gen.hexes(z), reps))
+            lines.append("bgraph %s %s %d" % ("b" if first == "k" else "k", gen.hexes(z), reps))
+        out.append(("b%d" % k, lines))
+    return out
+
+
+def bg_tags(si):
+    t = tags_flow(si)[:1]
+    for c in si.calls:
+        if c.cmd == "bgraph" and "bg_edges" in c.O:
+            ev = c.O["bg_edges"]
+            deg = {}
+            for k in range(0, len(ev), 6):
+                for x in (ev[k], ev[k + 1]):
+                    deg[x] = deg.get(x, 0) + 1
+            if deg and max(deg.values()) > 16:
+                t.append("basin_degree>16")
+            if len(c.O.get("bg_tree", [])) >= 3:
+                t.append("tree>=3")
+            ws = [ev[k + 4] for k in range(0, len(ev), 6)]
+            if len(set(ws)) < len(ws):
+                t.append("tied_edge_weights")
+            break
+    return t
+
+
+def bg_nontrivial(si):
+    return any(c.cmd == "bgraph" and len(c.O.get("bg_tree", [])) >= 1 for c in si.calls)
+
+
+register("C15", gen=gen_bgraph, oracles=[oracle.c15], nontrivial=bg_nontrivial, tags=bg_tags,
+         sections={"bg_outlets", "bg_edges", "bg_tree"},
+         rule="single-direction graphs on random grids (+ a channel family giving basins of degree > 16), heavy ties, masks, arbitrary base levels; basin graph built with Kruskal and Boruvka, repeated updates on the same basin-graph object; edges, passes, tree compared exactly with the Lean model; oracle: independent adjacency scan + exact Kruskal weight; non-trivial = tree has at least one edge",
+         trusted_base=FLOW_TB + ["std::sort tie order of Kruskal is recomputed by the harness with the same comparator and handed to the model, which validates it is a weight-sorted permutation",
+                                 "m_max_low_degree regenerated from basin_graph.hpp"])
+_lvl("C15", "translation_validation",
+     "connect_basins, Kruskal (class map), Boruvka (adjacency linked lists, low/large-degree lists, buckets - statement by statement) and orient_edges are modelled in Lean (Fs.Mst) and compared exactly (edges with pass nodes/weights/lengths, tree order) on every run for both methods; the oracle recomputes the lowest passes by an adjacency scan and the minimum spanning weight by an independent exact Kruskal, checks spanning/acyclicity/orientation and Kruskal = Boruvka weight. Theorems so far exist for a simplified Kruskal (class-map invariant, spanning) that is not yet tied to Fs.Mst.kruskal, so no proof is claimed.",
+     "bit-exact differential correspondence with the Lean model of connect/Kruskal/Boruvka/orient + independent MST-weight oracle")
